@@ -90,12 +90,22 @@ Section Knn.
            (k_dens g) (k_cost g) (k_pred g) (k_root g) (k_plabel g) (k_clabel g) (k_order g) gd (k_nclusters g),
      maxd', ns).
 
-  (* [thr] = 0.00001 and [one] = 1 as elements of W *)
-  Definition create_arcs (thr one : W) (k n : nat) (w : nat -> nat -> W) (g : knn) : knn * list W :=
+  (* [thr] = 0.00001 and [one] = 1 as elements of W.
+     [create_arcs_acc] is the body of the method after its first statement: the bound found in the graph is only raised. *)
+  Definition create_arcs_acc (thr one : W) (k n : nat) (w : nat -> nat -> W) (g : knn) : knn * list W :=
     let '(g1, maxd, _) := fold_left (arcs_node k n w) (seq 0 n) (g, repeat zero k, repeat 0 (S k)) in
     let gd := if ltb (k_gdens g1) thr then one else k_gdens g1 in
     (mkKnn (k_label g1) (k_adj g1) (k_radius g1) (k_nplat g1) (k_dens g1) (k_cost g1) (k_pred g1) (k_root g1)
            (k_plabel g1) (k_clabel g1) (k_order g1) gd (k_nclusters g1), maxd).
+
+  (* `self.density = 0.0` *)
+  Definition reset_gdens (g : knn) : knn :=
+    mkKnn (k_label g) (k_adj g) (k_radius g) (k_nplat g) (k_dens g) (k_cost g) (k_pred g) (k_root g)
+          (k_plabel g) (k_clabel g) (k_order g) zero (k_nclusters g).
+
+  (* KNNSubgraph.create_arcs: the density bound is that of the arcs being created *)
+  Definition create_arcs (thr one : W) (k n : nat) (w : nat -> nat -> W) (g : knn) : knn * list W :=
+    create_arcs_acc thr one k n w (reset_gdens g).
 
   Definition destroy_arcs (g : knn) : knn :=
     set_adj g (repeat [] (length (k_adj g))) (repeat 0 (length (k_adj g))).
